@@ -121,6 +121,11 @@ class DataLoggerRun:
         self._set(DCM.DataCollection, "WRITE_PERIOD", self.write_period)
         self.tmp = tempfile.mkdtemp(prefix="verif_dl_", dir=_scratch())
         md = LoggingMetadata()
+        self.md = md
+        # in a third of the runs the file names take a value from the metadata (a recording number)
+        self.rec_in_name = ch.flag("cfg.rec_in_name", 1, 3) and not self.forced
+        if self.rec_in_name:
+            md.update('{"rec": 1}')
         if ch.flag("cfg.tc_client_in_process", 1, 4):
             # the process also holds a (not connected) client of a time-code system; the recorder itself works with
             # plain headers throughout
@@ -177,8 +182,10 @@ class DataLoggerRun:
                 sub = 0
             # (the file name may contain a dot, e.g. a version number taken from the metadata)
             fname = f"ds{i}" + ch.choose("cfg.fname_tail", ["", "", "_v1.5", ".part"])
+            if self.rec_in_name:
+                fname += "_r$(rec)"
             ds = DSM.DataSet("coll", f"ds{i}", "", fname, fm[fmt], sub, types, md)
-            ds.verif_fname = fname
+            ds.verif_fname = fname.replace("$(rec)", "1")
             self.dc.add_data_set(ds)
             self.sets.append((ds, fmt, types, sub))
             self.expected[ds.name] = []
@@ -199,7 +206,7 @@ class DataLoggerRun:
                 fmt2 = "raw"
             elif self.high_ids and fmt2 == "quicklogger":
                 fmt2 = "json"
-            ds2 = DSM.DataSet("coll", old.name, "", getattr(old, "verif_fname", old.name), fm[fmt2], sub, types, md)
+            ds2 = DSM.DataSet("coll", old.name, "", old.file_name_fmt, fm[fmt2], sub, types, md)
             ds2.verif_fname = getattr(old, "verif_fname", old.name)
             if how == "remove_add":
                 self.dc.rm_data_set(old.name)
@@ -452,19 +459,37 @@ class DataLoggerRun:
 
     def restart(self, nrec=2):
         dc = self.dc
-        # new save directory for this recording
-        dc.dir_fmt = f"run{nrec}"
+        ch = self.ch
+        subdir = f"run{nrec}"
+        if self.rec_in_name and ch.flag("cfg.same_folder", 1, 2):
+            # the next recording goes into the same folder under other file names (the metadata changed in between)
+            self.md.update('{"rec": %d}' % nrec)
+            for ds, _f, _t, _s in self.sets:
+                ds.verif_fname = ds.file_name_fmt.replace("$(rec)", str(nrec))
+            subdir = "run"
+            dc.dir_fmt = subdir
+            self.res.probes["further_recording_same_folder"] += 1
+            self.t(f"metadata rec={nrec}: the next recording goes into the same folder")
+        else:
+            # new save directory for this recording
+            dc.dir_fmt = subdir
         for k in self.expected:
             self.expected[k] = []
         self.t("start() again")
         dc.start()
-        for _ in range(self.ch.pick("cfg.nops2", 10)):
-            self.op_update()
-            if self.ch.flag("op.yield", 1, 3):
+        for _ in range(ch.pick("cfg.nops2", 10)):
+            if ch.flag("op2.clock", 1, 5):
+                wp = self.write_period
+                dt = ch.choose("op2.dt", [0.1, wp + 0.01, 30.5, 600.5])
+                self.clock.advance(dt)
+                self.t(f"clock +{dt}")
+            else:
+                self.op_update()
+            if ch.flag("op.yield", 1, 3):
                 self.sched.yield_point("op.boundary")
         self.t("stop()")
         dc.stop()
-        self.check_files(f"after stop #{nrec}", subdir=f"run{nrec}")
+        self.check_files(f"after stop #{nrec}", subdir=subdir)
         self.res.probes["second_recording"] += 1
         if nrec > 2:
             self.res.probes["third_recording"] += 1
